@@ -264,6 +264,27 @@ theorem history_end_restored (j : Fin 3) (ps : List (List Cmd)) (w : World)
     rw [← hps] at hl
     exact history_setting_restored j ps w h _ (List.mem_of_getLast? hl) |> (hps ▸ ·)
 
+/-- **The older block histories ARE programs** (fragment without raising bodies — `runBlock` snapshots after an exit
+    also on the way out of an exception, which no `Cmd` program does): for managers of an accepted shape, running a
+    forest of `Block`s is running the program `blocksCmds bs` (each block followed by a snapshot), hence — by the
+    refinement — the IR-free specification of it: final settings, every snapshot, outcome. -/
+theorem blocks_are_programs (bs : List Block) (w : World) (h : blocksNoRaise bs = true) :
+    runBlocks Generated.CtxIR.managers bs w = specCmds (blocksCmds bs) w := by
+  rw [(runBlocks_as_cmds _ generated_good bs w h).1, programs_refine_spec]
+
+/-- `runBlocks_restores` on that fragment, now as a COROLLARY of the refinement (`program_setting_restored`): the
+    translated program calls no setter, so every setting is restored. -/
+theorem blocks_restored_via_refinement (bs : List Block) (w : World) (h : blocksNoRaise bs = true) :
+    (runBlocks Generated.CtxIR.managers bs w).1.glob = w.glob := by
+  funext j
+  rw [(runBlocks_as_cmds _ generated_good bs w h).1]
+  exact program_setting_restored j _ w (blocksCmds_noSet j bs)
+
+example : blocksNoRaise [.withB 0 3 [.withB 1 2 [.withB 2 9 [] false] false, .withB 2 5 [] false] false] = true ∧
+    (runBlocks Generated.CtxIR.managers
+      [.withB 0 3 [.withB 1 2 [] false] false] ⟨fun _ => 1, []⟩).1.log = [[3, 1, 1], [3, 2, 1], [3, 1, 1], [1, 1, 1]] := by
+  decide
+
 /-- Non-vacuity: a three-program history (raising, setters of settings 0 and 1, a caught exception); setting 2 is
     never set by a setter and is 1 after each program; the hypothesis holds. -/
 example :
